@@ -471,6 +471,26 @@ def run_scenario(sc, chooser=None, seed=0, max_steps=30000):
                                for c in live if info[c]["kind"] == "or" and not truth[c])
                 if hooks > built_on:
                     viol.append("C15: signal s%d carries %d OR hooks but only %d live untriggered composites are built on it" % (z, hooks, built_on))
+            # the same bound over what the PROGRAM can still reach: the signals it holds, and the operands (through any number of
+            # levels) of untriggered composites among them — a triggered composite has let go of its operands, so an inner
+            # composite that only it referred to is gone, and its hooks with it
+            held = set(z for z, o in live.items() if any(o is v for v in vars_.values()))
+            reach, todo = set(), list(held)
+            while todo:
+                c = todo.pop()
+                if c in reach:
+                    continue
+                reach.add(c)
+                if c in info and info[c]["kind"] in ("or", "and") and not truth[c]:
+                    todo.extend(d for d in info[c]["ops"] if d >= 2)
+            for z, o in live.items():
+                jq = ds.raw(o, "job_queue") or []
+                hooks = sum(1 for (j, e) in jq if isinstance(getattr(j, "target", j), OrSignal))
+                owners = sum((1 if info[c]["ops"][0] == z else 0) + (1 if info[c]["ops"][1] == z else 0)
+                             for c in reach if c in info and info[c]["kind"] == "or" and not truth[c])
+                if hooks > owners:
+                    viol.append("C15: signal s%d carries %d OR hooks but the program can reach only %d untriggered composites built on "
+                                "it: a composite that was triggered, or dropped, still keeps its operands hooked" % (z, hooks, owners))
             live.clear()
         # outcome "stuck": a wait(till=) nobody releases; the driver checks that the model is stuck in the same way
     finally:
